@@ -12,6 +12,7 @@
 from __future__ import annotations
 
 import ast
+import os
 from typing import Dict, List, Optional, Set, Tuple
 
 from ..callgraph import get_resolver, is_njit
@@ -216,6 +217,7 @@ def run(ctx: Context) -> None:
     ctx.rule("C11b", "in every use_dask split both arms call the same generator with the same per-shot seed expression over the same range")
     ctx.rule("C11c", "no callable flowing into a dask.delayed region draws from a generator shared between shots")
     ctx.rule("C11d", "parallel loops write only loop-locals, induction-indexed elements or whole-variable reductions; the jobs of the native permanent tile the Gray-code range exactly for every job count (S(0)=0, E(K-1)=M-1, S(j+1)=E(j)+1, proved by case split on the comparisons)")
+    ctx.rule("C11g", "no Python code of the package reads the number of workers (numba.get_num_threads, NUMBA_NUM_THREADS, cpu_count, ...): the value of a kernel cannot be a function of the thread count")
     ctx.rule("C11e", "memoised results are never written in place")
     ctx.rule("C11f", "no object that the shots of a dask.delayed region share (bound once by partial(...), or a free variable of the per-shot closure) is written in place by the per-shot callable")
     pv = Provenance(idx, res)
@@ -225,6 +227,7 @@ def run(ctx: Context) -> None:
     clause_bc(ctx, idx, reg, res, pv, an)
     clause_d(ctx, idx)
     clause_e(ctx, idx, res, an)
+    clause_g(ctx, idx)
 
 
 # ================================================================================================ (a)
@@ -756,3 +759,42 @@ def clause_e(ctx: Context, idx, res, an) -> None:
                           f"in-place write ({w.how}) on `{w.target}`, the shared result of memoised {', '.join(srcs)}: later results depend on "
                           f"what ran earlier in the process", norm(w.node).split("\n")[0][:100])
     ctx.obligation("C11e", "package|no-write-on-memoised-results", n == 0, memoised=len(an.memo_funcs) + len(an.memo_names))
+
+
+THREAD_COUNT_READS = {"get_num_threads", "cpu_count", "get_thread_count", "omp_get_max_threads", "omp_get_num_threads", "active_count"}
+THREAD_COUNT_ATTRS = {"NUMBA_NUM_THREADS", "NUMBA_DEFAULT_NUM_THREADS"}
+
+
+def clause_g(ctx: Context, idx) -> None:
+    """A deterministic quantity must not be a function of the number of workers.  numba's `prange` reductions are scheduled by
+    the runtime; what the Python kernels may not do is *read* the worker count and let it shape the computation (job partition,
+    reduction tree, array sizes).  Every read of the worker count in piquasso's Python code is reported (none is expected)."""
+    n_fn = 0
+    hits = []
+    for fn in idx.all_functions(include_nested=True):
+        if not fn.module.name.startswith("piquasso."):
+            continue
+        n_fn += 1
+        for n in walk_no_nested(fn.node):
+            if isinstance(n, ast.Call) and (dotted(n.func) or "").split(".")[-1] in THREAD_COUNT_READS:
+                hits.append((fn, n))
+            elif isinstance(n, ast.Attribute) and n.attr in THREAD_COUNT_ATTRS:
+                hits.append((fn, n))
+            elif isinstance(n, ast.Subscript) and isinstance(n.slice, ast.Constant) and isinstance(n.slice.value, str) \
+                    and n.slice.value in ("OMP_NUM_THREADS", "NUMBA_NUM_THREADS") and "environ" in norm(n.value):
+                hits.append((fn, n))
+    for fn, n in hits:
+        key = f"{fn.qualname}|worker count read|{norm(n)[:40]}"
+        ctx.violation("C11g", key, fn.file, n.lineno,
+                      f"`{norm(n)[:60]}` reads the number of workers in {fn.name}: the partition of the work (and with it the grouping of the "
+                      f"floating-point sums, or - if the reduction is wrong for some counts - the value itself) depends on the thread count",
+                      norm(n)[:80])
+    # the rule expects zero hits on the tree: a fixture must match on every run
+    fixture = os.path.join(os.path.dirname(os.path.dirname(os.path.dirname(os.path.abspath(__file__)))), "stubs", "thread_count_fixture.py")
+    tree = ast.parse(open(fixture).read())
+    fx = sum(1 for n in ast.walk(tree) if (isinstance(n, ast.Call) and (dotted(n.func) or "").split(".")[-1] in THREAD_COUNT_READS)
+             or (isinstance(n, ast.Attribute) and n.attr in THREAD_COUNT_ATTRS))
+    if fx < 2:
+        raise AnalysisError("C11g: the positive fixture stubs/thread_count_fixture.py is no longer matched")
+    ctx.obligation("C11g", "package|no read of the worker count", not hits, functions=n_fn, fixture_matches=fx)
+    ctx.require_floor("C11g python functions scanned for reads of the worker count", n_fn, 600)
